@@ -1,8 +1,13 @@
 /-
 C14 — layout and statement order do not change the output.
 
-The layout half (layout_irrelevant: two texts that differ in layout parse to trees that differ in
-spans only) rests on round-trip theorems of the parser model (C05) and is not closed.  Proved:
+The layout half: `layout_irrelevant` (`Proofs/LadderLayout.lean`) — on the operator ladder (literals,
+nonterminals, commands, juxtaposition by blanks, `|`, `||`, `[ ]`, postfix `...`, parentheses) two texts
+of one tree that differ only in their layout (any blanks, form feeds, line breaks and closed `#`
+comments at every position between the tokens) are parsed by `fallback_expr` into trees that differ
+in spans only; with `span_irrelevant_meaning` below, into grammars of the same meaning.  Outside the
+fragment (descriptions, escapes, layout between statements) the layout half is decided per grammar
+by the run.  Proved further:
 `span_irrelevant_meaning` — spans never influence the *meaning* the specification assigns (the
 automaton of the grammar's meaning is built from a span-free regular expression);
 `meaning_order_irrelevant` — `Spec.meaning` is the same for every permutation of the statements that
@@ -12,6 +17,8 @@ for two such grammars whenever it accepts both — the same automaton and the sa
 -/
 import Complgen.Spec.Den
 import Complgen.Proofs.Order
+import Complgen.Proofs.LadderLayout
+import Complgen.Proofs.Statements
 namespace Complgen.Props.C14
 open Complgen Complgen.Spec
 
@@ -62,5 +69,30 @@ theorem defn_order_irrelevant (g g' : Grammar) (sh : Shell) (v v' : Check.Valid)
     (hc : Check.callsOf g' = Check.callsOf g) (h : Check.validate g sh = .ok v)
     (h' : Check.validate g' sh = .ok v') : v'.expr = v.expr :=
   Check.validate_perm g g' sh v v' hp hc h h'
+
+/-- **Layout does not change the tree** (operator ladder): two admissible layouts of one tree are parsed
+as trees that differ in their spans only. -/
+theorem layout_irrelevant (e : Expr) (hnf : Parse.NF e) (lay₁ lay₂ : Parse.Layout)
+    (adm₁ : lay₁.Adm) (adm₂ : lay₂.Adm)
+    (rest₁ rest₂ : List Char) (hrest₁ : Parse.Follows rest₁) (hrest₂ : Parse.Follows rest₂)
+    (s₁ s₂ : Parse.PState)
+    (hs₁ : s₁.rest = Parse.ppL lay₁ 0 e ++ rest₁) (hs₂ : s₂.rest = Parse.ppL lay₂ 0 e ++ rest₂)
+    (fuel₁ fuel₂ : Nat) (hfuel₁ : Parse.fuelNeeded e ≤ fuel₁) (hfuel₂ : Parse.fuelNeeded e ≤ fuel₂) :
+    ∃ e₁ e₂, Parse.fallback fuel₁ s₁ = some (s₁.adv (Parse.ppL lay₁ 0 e).length, e₁) ∧
+      Parse.fallback fuel₂ s₂ = some (s₂.adv (Parse.ppL lay₂ 0 e).length, e₂) ∧
+      e₁.eraseSpans = e₂.eraseSpans :=
+  Parse.layout_irrelevant e hnf lay₁ lay₂ adm₁ adm₂ rest₁ rest₂ hrest₁ hrest₂ s₁ s₂ hs₁ hs₂
+    fuel₁ fuel₂ hfuel₁ hfuel₂
+
+/-- **Layout does not change the grammar** (whole files, `Proofs/Statements.lean`): two texts of one
+list of statements over the operator ladder that differ only in layout — at the beginning of the
+file, after statement names, around `::=` / `=` (and in the choice between the two signs), inside the
+expressions, before `;`, between statements, in the presence of the final `;` — are parsed by the
+model of `Grammar::parse` into grammars that differ in spans only. -/
+theorem grammar_layout_irrelevant (g : Grammar) (hg : ∀ st ∈ g, Parse.StmtNF st) (G₁ G₂ : Parse.GLayout)
+    (adm₁ : G₁.Adm g) (adm₂ : G₂.Adm g) :
+    ∃ g₁ g₂, Parse.parse (Parse.ppGrammarL G₁ g) = .ok g₁ ∧ Parse.parse (Parse.ppGrammarL G₂ g) = .ok g₂ ∧
+      g₁.map Stmt.eraseSpans = g₂.map Stmt.eraseSpans :=
+  Parse.grammar_layout_irrelevant g hg G₁ G₂ adm₁ adm₂
 
 end Complgen.Props.C14
